@@ -106,6 +106,8 @@ def _binary(self, other, f, reverse=False):
 class GVec(_Generic):
     """(N,) vector: one value per row.  kind: 'series' (label-aligned pandas Series) or 'array' (positional)"""
 
+    objdtype = False
+
     def __init__(self, val, space, present=None, kind="array", name=None):
         self.val = val
         self.space = space
@@ -171,6 +173,10 @@ class GVec(_Generic):
     def sub(self, o): return self - o
     def abs(self): return abs(self)
     def astype(self, t, *a, **k):
+        if t is object or t in ("object", "O") or t is str and False:
+            r = self._new(self.val)
+            r.objdtype = True
+            return r
         if _is_int_type(t):
             return self._new(sym.pyint(self.val) if isinstance(self.val, (SV, SB)) else int(self.val))
         if _is_float_type(t):
@@ -558,6 +564,7 @@ class GFrame(_Generic):
 
     def _clone(self, **kw):
         f = GFrame(self.cols, self.row, self.space, self.present, self.perm)
+        f.objcols = set(getattr(self, "objcols", ()))
         for k, v in kw.items(): setattr(f, k, v)
         return f
 
@@ -671,9 +678,13 @@ class GFrame(_Generic):
             if a.ndim == 1 and len(a) == ncols and ncols > 1:
                 return list(a)
             raise Unsupported(f"{what}: concrete array of shape {a.shape} into a symbolic-length table")
-        if isinstance(v, SymArange):
-            _len_check(self.space, v.n)
-            return [v.elem_at_row(self.space)] * ncols
+        if isinstance(v, SymRange):
+            a = v.a
+            start, stop, step = (0, a[0], 1) if len(a) == 1 else (a[0], a[1], a[2] if len(a) > 2 else 1)
+            if step != 1:
+                raise Unsupported("range with a step into a table column")
+            _len_check(self.space, stop - start)
+            return [RowPos(self.space).val + start] * ncols
         raise Unsupported(f"{what}: value of type {type(v).__name__}")
 
     def set_cells(self, r, c, v):
@@ -701,7 +712,8 @@ class GFrame(_Generic):
                 self.row[k] = nv
                 continue
             old = self.row[k]
-            _dtype_guard(old, nv, k)
+            if k not in getattr(self, "objcols", ()):
+                _dtype_guard(old, nv, k)
             self.row[k] = _guarded(nv if mask is None else _ite_any(mask, nv, old), old)
 
     def __setitem__(self, k, v):
@@ -709,7 +721,9 @@ class GFrame(_Generic):
             vals = self._coerce_cell(v, 1, f"column assignment [{k}]")
             if k not in self.row:
                 self.cols.append(k)
-            self.row[k] = vals[0]
+            self.row[k] = _guarded(vals[0], self.row.get(k, vals[0]))
+            if getattr(v, "objdtype", False) or isinstance(vals[0], str) or type(vals[0]).__name__ == "StrChoice":
+                self.objcols = set(getattr(self, "objcols", ())) | {k}
             return
         if isinstance(k, list):
             vals = self._coerce_cell(v, len(k), "columns assignment")
